@@ -15,4 +15,5 @@ CONSTANTS
   Depth = 8
   MaxIdle = 0
   HoldClose = TRUE
+  HoldAck = FALSE
 CHECK_DEADLOCK FALSE
